@@ -68,6 +68,21 @@ static const uint32_t std_iv[5] = { 0x67452301u, 0xefcdab89u, 0x98badcfeu, 0x103
 static const uint32_t std_iv[8] = { 0x6a09e667u, 0xbb67ae85u, 0x3c6ef372u, 0xa54ff53au, 0x510e527fu, 0x9b05688cu, 0x1f83d9abu, 0x5be0cd19u };
 #endif
 
+/* ------------------------------------------------------------------ the context object */
+#ifndef CTXOFF
+#define CTXOFF 0
+#endif
+/* the context at byte offset CTXOFF from a 64-byte boundary (ALIGN_64(ctx->frame_buffer) is evaluated for that alignment;
+ * lib/mhglue.py varies CTXOFF over the instances) */
+static struct __attribute__((packed)) { uint8_t pad[CTXOFF + 64]; CTX c; } ctx_store
+#ifdef REPLAY
+__attribute__((aligned(64)))
+#endif
+;
+/* the harness reads / writes the tracked byte through the typed member (an array access for CBMC, not a byte
+ * operation on the whole object) */
+#define PB(i) (ctx_store.c.partial_block_buffer[(i)])
+
 /* ------------------------------------------------------------------ ghost state */
 static CTX *c;                 /* the context under test */
 static uint8_t *pb;            /* its partial block buffer */
@@ -76,8 +91,10 @@ static uint64_t ulen;
 static uint64_t T0, H, pbs, Mpos;
 static uint32_t pbl;
 static int n_block, n_final, n_copy, n_clear, n_mblock, n_mtail;
-static unsigned g_didx, g_midx;
-static uint32_t dtoken, mtoken;
+static uint32_t dtoken, mtoken; /* chaining tokens: every word of the interim digests / murmur state is a fixed function of the token */
+#define NSEGW (NW * 16)
+#define DWORD(i) (dtoken ^ ((uint32_t) (i) * 0x9e3779b9u))
+#define MWORD(i) (mtoken + (uint32_t) (i))
 static unsigned trk;           /* tracked byte position inside the first 1024 bytes of the partial buffer */
 static uint8_t trk_old;
 static uint32_t fin[NW], mfin[4];
@@ -112,20 +129,13 @@ static void *mh_memcpy(void *dst, const void *src, size_t n)
         pbl += (uint32_t) n;
         return dst;
 #else
-        /* finalize / init: no copy is expected; if one happens it is really performed when it is small
-         * and goes through the tracked byte when it targets the partial buffer */
-        if (IN_CTX(dst) && (uint8_t *) dst >= pb && PDIFF(dst, pb) < 2 * BLK) {
-                uint64_t doff = PDIFF(dst, pb);
-                VASSERT(n <= 2 * BLK - doff, "C08:mh-copy:stays-inside-the-2048-byte-partial-block-buffer");
+        /* finalize / init: the glue copies nothing.  (Not modelled for CBMC: see mh_memset.) */
+        VASSERT(0, "C05,C10:mh-copy:finalize-and-init-copy-nothing");
 #ifdef REPLAY
-                return (memcpy)(dst, src, n);
-#else
-                if (trk >= doff && trk - doff < n)
-                        pb[trk] = ((const uint8_t *) src)[trk - doff];
-                return dst;
-#endif
-        }
         return (memcpy)(dst, src, n);
+#else
+        return dst;
+#endif
 #endif
 }
 
@@ -134,9 +144,17 @@ static void *mh_memset(void *dst, int ch, size_t n)
 #if SCEN == 3 || SCEN == 4
         return (memset)(dst, ch, n); /* init clears the whole context: really done */
 #else
-        if (!(IN_CTX(dst) && (uint8_t *) dst >= pb && PDIFF(dst, pb) <= 2 * BLK))
-                return (memset)(dst, ch, n); /* not the partial buffer (no such call in the unchanged tree) */
         n_clear++;
+        if (!(IN_CTX(dst) && (uint8_t *) dst >= pb && PDIFF(dst, pb) <= 2 * BLK)) {
+                /* not the partial buffer (no such call in the unchanged tree).  Not modelled for CBMC: a libc memset of
+                 * symbolic length would be encoded even though the path is infeasible */
+                VASSERT(0, "C08:mh-clear:only-the-partial-block-buffer-of-the-context-is-cleared");
+#ifdef REPLAY
+                return (memset)(dst, ch, n);
+#else
+                return dst;
+#endif
+        }
         uint64_t doff = PDIFF(dst, pb);
         VASSERT(n <= 2 * BLK - doff, "C08:mh-clear:stays-inside-the-2048-byte-partial-block-buffer");
 #if SCEN == 1
@@ -149,13 +167,42 @@ static void *mh_memset(void *dst, int ch, size_t n)
         return (memset)(dst, ch, n);
 #else
         if (trk >= doff && trk - doff < n)
-                pb[trk] = (uint8_t) ch;
+                PB(trk) = (uint8_t) ch;
         return dst;
 #endif
 #endif
 }
 #define memcpy(d, s, n) mh_memcpy((d), (s), (n))
 #define memset(d, ch, n) mh_memset((d), (ch), (n))
+
+/* ------------------------------------------------------------------ chaining values */
+static int interim_is_token(void)
+{
+        const uint32_t *w = (const uint32_t *) c->INTERIM;
+        int ok = 1;
+        for (unsigned i = 0; i < NSEGW; i++)
+                ok &= (w[i] == DWORD(i));
+        return ok;
+}
+static void interim_new_token(void)
+{
+        uint32_t *w = (uint32_t *) c->INTERIM;
+        dtoken = ND_U32(); /* the block function overwrites the segment digests with values the glue cannot know */
+        for (unsigned i = 0; i < NSEGW; i++)
+                w[i] = DWORD(i);
+}
+#if ALG == 3
+static int murmur_is_token(const uint32_t *md)
+{
+        return md[0] == MWORD(0) && md[1] == MWORD(1) && md[2] == MWORD(2) && md[3] == MWORD(3);
+}
+static void murmur_new_token(uint32_t *md)
+{
+        mtoken = ND_U32();
+        for (int i = 0; i < 4; i++)
+                md[i] = MWORD(i);
+}
+#endif
 
 /* ------------------------------------------------------------------ block function loggers */
 #if SCEN == 2
@@ -169,7 +216,7 @@ static void check_tail_block(const uint8_t *ptr)
         VASSERT(n_block <= nblocks, "C05,C10:tail:number-of-padding-blocks");
         int last = n_block >= nblocks;
         unsigned k = trk;
-        uint8_t b = ptr[k];
+        uint8_t b = (ptr == pb) ? PB(k) : ptr[k];
         uint64_t bits = Tfin << 3; /* 64-bit BIT length of the stream */
         uint8_t lenbyte = (uint8_t) (bits >> (8 * ((BLK - 1 - k) & 7)));
         if (n_block == 1) {
@@ -198,7 +245,7 @@ static void log_block(const uint8_t *ptr, void *digests, uint8_t *frame, uint32_
                         PDIFF(frame, c->frame_buffer) + BLK <= sizeof(c->frame_buffer),
                 "C08:block:frame-is-64-byte-aligned-and-its-1024-bytes-lie-inside-ctx->frame_buffer");
         VASSERT(nb >= 1, "C05,C10:block:at-least-one-block-per-call");
-        VASSERT(((uint32_t *) c->INTERIM)[g_didx] == dtoken, "C05,C10,C20:block:chaining-value-is-the-previous-result");
+        VASSERT(interim_is_token(), "C05,C10,C20:block:chaining-value-is-the-previous-result");
         uint64_t nbytes = (uint64_t) nb * BLK;
         if (IN_CTX(ptr)) {
                 VASSERT(ptr == pb && nb == 1, "C05,C08,C10:block:a-block-inside-the-context-is-exactly-the-first-1024-bytes-of-the-partial-buffer");
@@ -223,8 +270,7 @@ static void log_block(const uint8_t *ptr, void *digests, uint8_t *frame, uint32_
                 check_tail_block(ptr);
 #endif
         }
-        dtoken = ND_U32(); /* the block function overwrites the segment digests; the observed word suffices */
-        ((uint32_t *) c->INTERIM)[g_didx] = dtoken;
+        interim_new_token();
 }
 
 #if ALG == 3
@@ -233,7 +279,7 @@ static void log_murmur_block(const uint8_t *ptr, uint32_t nunits, uint32_t *md)
 {
         n_mblock++;
         VASSERT(md == c->murmur3_x64_128_digest, "C10:murmur-block:works-on-the-murmur-state-of-this-context");
-        VASSERT(md[g_midx] == mtoken, "C10,C20:murmur-block:state-is-the-previous-result-(or-the-seed)");
+        VASSERT(murmur_is_token(md), "C10,C20:murmur-block:state-is-the-previous-result-(or-the-seed)");
         VASSERT(n_mtail == 0, "C10:murmur-block:no-block-after-the-tail");
         uint64_t nbytes = (uint64_t) nunits * 16;
         uint64_t pos = 0;
@@ -246,7 +292,7 @@ static void log_murmur_block(const uint8_t *ptr, uint32_t nunits, uint32_t *md)
                 VASSERT(PDIFF(ptr, pb) + nbytes <= fill, "C10:murmur-block:reads-only-carried-stream-bytes");
                 pos = (Tfin - fill) + PDIFF(ptr, pb);
                 if (ptr >= pb && trk >= PDIFF(ptr, pb) && trk - PDIFF(ptr, pb) < nbytes)
-                        VASSERT(pb[trk] == trk_old, "C10:murmur-block:remainder-is-read-before-the-mh_sha1-padding-overwrites-it");
+                        VASSERT(PB(trk) == trk_old, "C10:murmur-block:remainder-is-read-before-the-mh_sha1-padding-overwrites-it");
 #endif
         } else {
                 VASSERT(IN_UBUF(ptr), "C08:murmur-block:data-points-into-the-callers-buffer");
@@ -256,8 +302,7 @@ static void log_murmur_block(const uint8_t *ptr, uint32_t nunits, uint32_t *md)
         }
         VASSERT(pos == Mpos, "C10:murmur-block:16-byte-units-in-stream-order-exactly-once");
         Mpos += nbytes;
-        mtoken = ND_U32();
-        md[g_midx] = mtoken;
+        murmur_new_token(md);
 }
 #endif
 
@@ -284,12 +329,12 @@ void _murmur3_x64_128_tail(const uint8_t *tail, uint32_t total_len, uint32_t md[
 #if SCEN == 2
         VASSERT(n_mtail == 1, "C10:murmur-tail:exactly-once");
         VASSERT(md == c->murmur3_x64_128_digest, "C10:murmur-tail:works-on-the-murmur-state-of-this-context");
-        VASSERT(md[g_midx] == mtoken, "C10,C20:murmur-tail:state-is-the-result-of-the-last-block-call");
+        VASSERT(murmur_is_token(md), "C10,C20:murmur-tail:state-is-the-result-of-the-last-block-call");
         VASSERT(Mpos == Tfin - (Tfin & 15), "C10:murmur-tail:all-whole-16-byte-units-were-processed-before");
         VASSERT(tail == pb + (fill - (fill & 15)), "C10:murmur-tail:points-at-the-bytes-behind-the-last-whole-unit");
         VASSERT(total_len == (uint32_t) Tfin && (uint64_t) total_len == Tfin, "C10,C15:murmur-tail:receives-the-TOTAL-stream-length");
         if (trk >= fill - (fill & 15) && trk < fill)
-                VASSERT(pb[trk] == trk_old, "C10:murmur-tail:remainder-is-read-before-the-mh_sha1-padding-overwrites-it");
+                VASSERT(PB(trk) == trk_old, "C10:murmur-tail:remainder-is-read-before-the-mh_sha1-padding-overwrites-it");
         for (int w = 0; w < 4; w++) {
                 mfin[w] = ND_U32();
                 md[w] = mfin[w];
@@ -307,7 +352,7 @@ void FINAL_HASH(const uint8_t *input, uint32_t *digest, const uint32_t len)
 #if SCEN == 2
         VASSERT(input == (const uint8_t *) c->INTERIM && len == 4 * NW * 16, "C05,C10:final:hash-runs-over-the-16-segment-digests-of-this-context");
         VASSERT(n_block == (two_blocks ? 2 : 1), "C05,C10:final:every-padding-block-was-hashed-first");
-        VASSERT(((uint32_t *) c->INTERIM)[g_didx] == dtoken, "C05,C10,C20:final:segment-digests-are-the-result-of-the-last-block-call");
+        VASSERT(interim_is_token(), "C05,C10,C20:final:segment-digests-are-the-result-of-the-last-block-call");
         VASSERT(n_final == 1, "C05,C10:final:exactly-once");
         VASSERT(IN_CTX(digest), "C08:final:result-stored-inside-the-context");
         for (int w = 0; w < NW; w++) {
@@ -394,15 +439,8 @@ int CAT3(_, P, _finalize)(CTX *ctx, void *d1)
 /* ------------------------------------------------------------------ harness */
 static CTX *new_ctx(void)
 {
-        /* the context at an arbitrary offset (0..63) from a 64-byte boundary: ALIGN_64(ctx->frame_buffer) is exercised for every alignment */
-        unsigned a = ND_U8() & 63;
-#ifdef REPLAY
-        uint8_t *raw = verif_obj(sizeof(CTX) + 128);
-        raw = (uint8_t *) (((uintptr_t) raw + 63) & ~(uintptr_t) 63);
-#else
-        uint8_t *raw = verif_obj(sizeof(CTX) + 64); /* CBMC: object bases are 64-byte aligned in the pointer encoding (offset 0) */
-#endif
-        return (CTX *) (raw + a);
+        HAVOC_OBJ(&ctx_store, sizeof(ctx_store));
+        return &ctx_store.c;
 }
 
 void harness(void)
@@ -411,7 +449,6 @@ void harness(void)
         /* ---------------- one update call from an arbitrary state satisfying the invariant */
         c = new_ctx();
         pb = c->partial_block_buffer;
-        g_didx = ND_U8() % (NW * 16);
         T0 = ND_U64();
         uint32_t len = ND_U32();
 #ifdef BEYOND
@@ -420,22 +457,20 @@ void harness(void)
         VASSUME(T0 + len < (1ull << 32) && T0 < (1ull << 32)); /* the property's domain: streams shorter than 2^32 bytes */
 #endif
         c->total_length = T0;
-        dtoken = ND_U32();
-        ((uint32_t *) c->INTERIM)[g_didx] = dtoken;
+        interim_new_token();
         pbl = (uint32_t) (T0 % BLK); /* invariant: the partial buffer carries the last T0 mod 1024 stream bytes */
         pbs = T0 - pbl;
         H = pbs;
 #if ALG == 3
-        g_midx = ND_U8() & 3;
-        mtoken = ND_U32();
-        c->murmur3_x64_128_digest[g_midx] = mtoken;
+        murmur_new_token(c->murmur3_x64_128_digest);
         Mpos = H; /* invariant: murmur has consumed exactly the whole 1024-byte blocks */
 #endif
         unsigned off = ND_U8() & 63; /* arbitrary alignment of the caller's buffer */
         ulen = len;
         ubase = (const uint8_t *) verif_obj((size_t) len + off) + off; /* exactly len bytes; the glue never dereferences it */
-        unsigned dw = ND_U8() % NW;
-        uint32_t dig_before = c->DIGEST[dw];
+        uint32_t dig_before[NW];
+        for (int w = 0; w < NW; w++)
+                dig_before[w] = c->DIGEST[w];
         int null_ctx = ND_U8() & 1;
         if (null_ctx) {
                 int rc0 = FN_UPDATE(0, ubase, len);
@@ -450,21 +485,21 @@ void harness(void)
         VASSERT((H % BLK) == 0 && H + pbl == T1, "C05,C10:update:hashed-blocks-plus-carried-bytes-cover-the-stream");
         VASSERT(pbl == (uint32_t) (T1 % BLK), "C05,C10:update:invariant-carried-length-is-total-mod-1024");
         VASSERT(pbl == 0 || pbs == H, "C05,C10:update:invariant-carried-bytes-are-the-stream-tail-in-order");
-        VASSERT(((uint32_t *) c->INTERIM)[g_didx] == dtoken, "C05,C10,C20:update:segment-digests-only-changed-by-the-block-function");
+        VASSERT(interim_is_token(), "C05,C10,C20:update:segment-digests-only-changed-by-the-block-function");
         VASSERT(n_block <= 2 && n_final == 0, "C05,C10:update:at-most-one-carried-block-call-and-one-bulk-call");
-        VASSERT(c->DIGEST[dw] == dig_before, "C05,C10:update:result-digest-field-untouched");
+        for (int w = 0; w < NW; w++)
+                VASSERT(c->DIGEST[w] == dig_before[w], "C05,C10:update:result-digest-field-untouched");
         if (len == 0)
                 VASSERT(n_block == 0 && n_copy == 0 && n_clear == 0, "C05,C10:update:empty-segment-changes-nothing");
 #if ALG == 3
         VASSERT(Mpos == H, "C10:update:murmur-and-mh_sha1-have-consumed-the-same-whole-blocks");
-        VASSERT(c->murmur3_x64_128_digest[g_midx] == mtoken, "C10,C20:update:murmur-state-only-changed-by-the-block-function");
+        VASSERT(murmur_is_token(c->murmur3_x64_128_digest), "C10,C20:update:murmur-state-only-changed-by-the-block-function");
         VASSERT(n_mtail == 0, "C10:update:no-murmur-tail-before-finalize");
 #endif
 #elif SCEN == 2
         /* ---------------- finalize from an arbitrary state satisfying the invariant */
         c = new_ctx();
         pb = c->partial_block_buffer;
-        g_didx = ND_U8() % (NW * 16);
         Tfin = ND_U64();
 #ifdef BEYOND
         VASSUME(Tfin >= (1ull << 32) && Tfin < (1ull << 61));
@@ -474,18 +509,11 @@ void harness(void)
         c->total_length = Tfin;
         fill = (uint32_t) (Tfin % BLK);
         two_blocks = fill + 1 > BLK - 8;
-        dtoken = ND_U32();
-        ((uint32_t *) c->INTERIM)[g_didx] = dtoken;
+        interim_new_token();
         trk = ND_U32() % BLK;
-        uint8_t tb = ND_U8(); /* the carried byte at the tracked position: an explicit draw (replayable) */
-        pb[trk] = tb;
-        trk_old = tb;
-        unsigned upper = BLK + ND_U32() % BLK; /* a byte of the upper half of the 2048-byte buffer */
-        uint8_t upper_old = pb[upper];
+        trk_old = PB(trk); /* arbitrary (CBMC) / 0xA5 (native replay: neither 0 nor 0x80 nor a plausible length byte) */
 #if ALG == 3
-        g_midx = ND_U8() & 3;
-        mtoken = ND_U32();
-        c->murmur3_x64_128_digest[g_midx] = mtoken;
+        murmur_new_token(c->murmur3_x64_128_digest);
         Mpos = Tfin - fill;
         uint32_t *mout = verif_obj(16); /* exactly 16 bytes */
 #endif
@@ -498,7 +526,7 @@ void harness(void)
                 int rc0 = FN_FINAL(0, out);
 #endif
                 VASSERT(rc0 == -1, "C05,C10,C16:finalize:NULL-context-returns-CTX_ERROR_NULL");
-                VASSERT(n_block == 0 && n_final == 0 && n_clear == 0 && n_copy == 0 && n_mblock == 0 && n_mtail == 0 && pb[trk] == trk_old, "C05,C10,C16:finalize:NULL-context-has-no-side-effect");
+                VASSERT(n_block == 0 && n_final == 0 && n_clear == 0 && n_copy == 0 && n_mblock == 0 && n_mtail == 0 && PB(trk) == trk_old, "C05,C10,C16:finalize:NULL-context-has-no-side-effect");
                 return;
         }
 #if ALG == 3
@@ -516,7 +544,6 @@ void harness(void)
                 if (!null_out)
                         VASSERT(out[w] == fin[w], "C05,C10:finalize:callers-digest-buffer-receives-the-result-of-the-final-hash");
         }
-        VASSERT(pb[upper] == upper_old, "C08:finalize:upper-half-of-the-partial-buffer-untouched");
 #if ALG == 3
         VASSERT(n_mtail == 1, "C10:finalize:murmur-tail-called-once");
         VASSERT(Mpos + (Tfin & 15) == Tfin, "C10:finalize:every-16-byte-unit-went-through-the-murmur-block-function");
